@@ -280,7 +280,7 @@ Proof.
   destruct (c_closed c) eqn:Hc.
   { (* a closed client: nothing is registered any more, the agent is closed *)
     destruct (S3 eq_refl) as [Sa St].
-    destruct o as [id raw h|raw|d|now|now|r|s| |now|d|fid]; cbn [c_step].
+    destruct o as [id raw h|raw|d|now|now|r|s| |now|d|fid|sid]; cbn [c_step].
     - unfold c_start, c_start_gen. rewrite Hc. exact S.
     - unfold c_start, c_start_gen. rewrite Hc. exact S.
     - unfold c_deliver. destruct (decode _) as [m st]. destruct st as [[]| | |]; try exact S.
@@ -292,9 +292,10 @@ Proof.
     - unfold c_close. rewrite Hc. exact S.
     - unfold c_tick_race. cbn [c_closed]. rewrite Hc. cbn [fst]. apply (closed_sinv_same c); auto.
     - unfold c_deliver_race. rewrite Hc. exact S.
-    - unfold c_foreign. rewrite (astep_closed_same _ _ Sa). cbn [fst]. apply (closed_sinv_same c); auto. }
+    - unfold c_foreign. rewrite (astep_closed_same _ _ Sa). cbn [fst]. apply (closed_sinv_same c); auto.
+    - unfold c_app_stop. rewrite (astep_closed_same _ _ Sa). cbn [feed fst]. apply (closed_sinv_same c); auto. }
   specialize (S2 eq_refl).
-  destruct o as [id raw h|raw|d|now|now|r|s| |now|d|fid]; cbn [c_step].
+  destruct o as [id raw h|raw|d|now|now|r|s| |now|d|fid|sid]; cbn [c_step].
   - (* Start *)
     unfold c_start, c_start_gen. rewrite Hc.
     set (t := mkTxn (c_next_inst c) id 0 0 h (c_rto c) raw).
@@ -437,6 +438,22 @@ Proof.
         rewrite H by (left; eexists; reflexivity). apply Cv, Hx.
     + intros _. pose proof (astep_flag (c_A c) (AStart fid FOREIGN_DEADLINE)) as H. rewrite Est in H. cbn [fst] in H.
       rewrite H by discriminate. exact S2.
+  - (* the application stops a transaction through the shared agent *)
+    unfold c_app_stop.
+    destruct (a_step (c_A c) (AStopErr sid E_STOPPED)) as [A' [r evs]] eqn:Est.
+    assert (Hev : forall x, x = sid -> In x (map t_id (c_T c)) -> In x (map ev_id evs)).
+    { intros x -> Hx. unfold a_step in Est. rewrite S2, (Cv _ Hx) in Est. injection Est as _ _ <-. left. reflexivity. }
+    pose proof (feed_covered fb (kind_evk []) evs (upd_A c A')) as Hf.
+    pose proof (feed_frame true fb evs (kind_evk []) (upd_A c A')) as HF.
+    pose proof (feed_flag fb (kind_evk []) evs (upd_A c A')) as Hfl.
+    destruct (feed true fb (upd_A c A') evs (kind_evk [])) as [c2 ob]. cbn [fst] in *.
+    unfold frame in HF. cbn [c_closed upd_A] in HF. injection HF as Hc2 _ _ _ _ _ _ _.
+    unfold sinv. rewrite Hc2; try rewrite Hc. split; [|split; [|discriminate]].
+    + apply Hf. cbn [c_T c_A upd_A]. intros x Hx. destruct (N.eq_dec x sid) as [E|E]; [right; apply Hev; assumption|].
+      left. pose proof (astep_other (c_A c) (AStopErr sid E_STOPPED) sid x E) as H. rewrite Est in H. cbn [fst] in H.
+      rewrite H by (right; left; eexists; reflexivity). apply Cv, Hx.
+    + intros _. rewrite Hfl. cbn [c_A upd_A]. pose proof (astep_flag (c_A c) (AStopErr sid E_STOPPED)) as H. rewrite Est in H.
+      cbn [fst] in H. rewrite H by discriminate. exact S2.
 Qed.
 
 Theorem run_sinv fb tid_of ops : forall c, sinv c -> sinv (fst (c_run true fb tid_of c ops)).
